@@ -1510,10 +1510,10 @@ def gen_s8_cases(seed, tier):
     memos = ['-', '0:L,1:I', '0:D,1:S,2:O,3:T']
     srcs = ['-', '0102030405060708090a0b0c0d0e0f101112131415161718191a1b1c1d1e1f20212223242526272829']
     cases, k = [], 0
-    def add(v, stack, memo, ops, src, unsafe=0, ext=0, buf=0, muts=None):
+    def add(v, stack, memo, ops, src, unsafe=0, ext=0, buf=0, muts=None, extra=''):
         nonlocal k
-        cases.append('id=e%d v=%d min=0 max=0 rate=%s unsafe=%d ext=%d buf=%d muts=%s stack=%s memo=%s ops=%s src=bytes:%s' % (
-            k, v, RATES['0.1'], unsafe, ext, buf, ','.join(muts) if muts else '-', stack, memo, ','.join(ops) if ops else '-', src))
+        cases.append('id=e%d v=%d min=0 max=0 rate=%s unsafe=%d ext=%d buf=%d muts=%s stack=%s memo=%s ops=%s src=bytes:%s%s' % (
+            k, v, RATES['0.1'], unsafe, ext, buf, ','.join(muts) if muts else '-', stack, memo, ','.join(ops) if ops else '-', src, extra))
         k += 1
     for v in range(6):
         # candidate sets (and tails) everywhere; emissions where the volume allows
@@ -1532,6 +1532,16 @@ def gen_s8_cases(seed, tier):
             for sign in (0, 1):
                 bits = (sign << 63) | (e << 52) | mant
                 add(e % 2, '-', '-', ['FLOAT'], bits.to_bytes(8, 'little').hex())
+    # content-insensitivity (fact F1 of DESIGN section 1, on which the kind-level model rests): the same states with NON-EMPTY
+    # containers and objects (a dict with seven mixed entries, lists / tuples / sets with items, instances with arguments): same
+    # candidate sets, same emissions, same tails as the model computes from the kinds alone; and each state is built eight
+    # times over - fresh hash keys and addresses every time - and must offer the same candidates every time (C07)
+    cont = 'LTDEZOC'
+    for v in (1, 3, 5):
+        sts = [a + b for a in cont for b in full] + [a + b + c_ for a in cont for b in 'LTDM' + 'SI' for c_ in cont] + \
+              [a + b + c_ for a in 'CO' for b in 'TL' for c_ in 'DT'] + ['M' + a + b for a in cont for b in cont]
+        for i, st in enumerate(sts):
+            add(v, st, memos[i % 2], rows[v] if i % 3 == 0 else [], srcs[1], ext=1, buf=int(v == 5), extra=' fill=1 rebuild=8')
     # unsafe mode relaxes guards (STACK_GLOBAL): depth <= 2 again
     for v in (4, 5):
         for st in stacks:
